@@ -61,7 +61,8 @@ Proof.
     apply gcs_snoc_inv in Hcur. destruct Hcur as [Hcur' Hc].
     destruct (ofind s (rpath (cur' ++ [c]))) as [[i n]|].
     + destruct (on_dir n); exact I.
-    + rewrite (inv_os _ Hinv). rewrite (split_abs_rpath cur' c) by (apply comp_ok_nosl; apply good_comp_ok'; exact Hc).
+    + rewrite (inv_os _ Hinv). destruct (Nat.leb _ _); [exact I|].
+      rewrite (split_abs_rpath cur' c) by (apply comp_ok_nosl; apply good_comp_ok'; exact Hc).
       apply IH; [exact Hcur'|]. rewrite app_length in Hfuel. cbn [length] in Hfuel. lia.
 Qed.
 
@@ -93,8 +94,9 @@ Proof.
   - destruct (ofind_root s (inv_h _ Hinv)) as (n & H1 & _). rewrite E1, H1. exact I.
   - rewrite E1. destruct (ofind s (rpath (ps ++ [c]))); [exact I|].
     destruct (ofind s (rpath ps)) as [[pi pn]|] eqn:Ep; [crush Hinv|].
-    destruct (o_up_loop (S (length (rpath ps))) s (rpath ps)) as [n|] eqn:Eu; [crush Hinv|].
-    exfalso. revert Eu. apply up_loop_ok; try assumption. pose proof (rpath_length_ge ps). lia.
+    cbn [snd]. apply enf_ok_r; [exact Hinv|exact I| |].
+    + apply gcs_snoc; assumption.
+    + destruct ps; discriminate.
 Qed.
 
 Lemma ok_mkdir_all s path perm : orefa_inv s -> res_ok (snd (o_mkdir_all s path perm)).
